@@ -360,6 +360,18 @@ def _color_desc_88(num: int) -> str:
     return f"g{_GRAY_STEPS_88_101[num - _GRAY_START_88]:d}"
 
 
+def _int_digits(text: str, base: int) -> int:
+    """
+    int(text, base) for plain digit strings only.
+
+    int() also accepts signs, surrounding whitespace, '_' separators, a '0x' prefix and non-ASCII digits;
+    none of these belong in a color description.  Raises ValueError for anything else.
+    """
+    if not text or any(char not in "0123456789abcdefABCDEF"[: 10 if base == 10 else 22] for char in text):
+        raise ValueError(text)
+    return int(text, base)
+
+
 def _parse_color_true(desc: str) -> int | None:
     if (c := _parse_color_256(desc)) is not None:
         (r, g, b) = _COLOR_VALUES_256[c]
@@ -371,11 +383,11 @@ def _parse_color_true(desc: str) -> int | None:
     try:
         if len(desc) == 7:
             h = desc[1:]
-            return int(h, 16)
+            return _int_digits(h, 16)
 
         if len(desc) == 4:
-            h = f"0x{desc[1]}0{desc[2]}0{desc[3]}"
-            return int(h, 16)
+            h = f"{desc[1]}0{desc[2]}0{desc[3]}"
+            return _int_digits(h, 16)
     except ValueError:
         return None
 
@@ -407,14 +419,14 @@ def _parse_color_256(desc: str) -> int | None:
     try:
         if desc.startswith("h"):
             # high-color number
-            num = int(desc[1:], 10)
+            num = _int_digits(desc[1:], 10)
             if num < 0 or num > 255:
                 return None
             return num
 
         if desc.startswith("#") and len(desc) == 4:
             # color-cube coordinates
-            if (rgb := int(desc[1:], 16)) >= 0:
+            if (rgb := _int_digits(desc[1:], 16)) >= 0:
                 b, rgb = rgb % 16, rgb // 16
                 g, r = rgb % 16, rgb // 16
                 # find the closest rgb values
@@ -428,13 +440,13 @@ def _parse_color_256(desc: str) -> int | None:
         # Only remaining possibility is gray value
         if desc.startswith("g#"):
             # hex value 00..ff
-            gray = int(desc[2:], 16)
+            gray = _int_digits(desc[2:], 16)
             if gray < 0 or gray > 255:
                 return None
             gray = _GRAY_256_LOOKUP[gray]
         elif desc.startswith("g"):
             # decimal value 0..100
-            gray = int(desc[1:], 10)
+            gray = _int_digits(desc[1:], 10)
             if gray < 0 or gray > 100:
                 return None
             gray = _GRAY_256_LOOKUP_101[gray]
@@ -456,7 +468,7 @@ def _true_to_256(desc: str) -> str | None:
         return None
 
     try:
-        c256 = _parse_color_256("#" + "".join(format(int(x, 16) // 16, "x") for x in (desc[1:3], desc[3:5], desc[5:7])))
+        c256 = _parse_color_256("#" + "".join(format(_int_digits(x, 16) // 16, "x") for x in (desc[1:3], desc[3:5], desc[5:7])))
     except ValueError:
         return None
     if c256 is None:
@@ -484,7 +496,7 @@ def _parse_color_88(desc: str) -> int | None:
     >>> _parse_color_88('g#80')
     83
     """
-    if len(desc) == 7:
+    if len(desc) == 7 and desc.startswith("#"):
         desc = desc[0:2] + desc[3] + desc[5]
     if len(desc) > 4:
         # keep the length within reason before parsing
@@ -492,14 +504,14 @@ def _parse_color_88(desc: str) -> int | None:
     try:
         if desc.startswith("h"):
             # high-color number
-            num = int(desc[1:], 10)
+            num = _int_digits(desc[1:], 10)
             if num < 0 or num > 87:
                 return None
             return num
 
         if desc.startswith("#") and len(desc) == 4:
             # color-cube coordinates
-            if (rgb := int(desc[1:], 16)) >= 0:
+            if (rgb := _int_digits(desc[1:], 16)) >= 0:
                 b, rgb = rgb % 16, rgb // 16
                 g, r = rgb % 16, rgb // 16
                 # find the closest rgb values
@@ -513,13 +525,13 @@ def _parse_color_88(desc: str) -> int | None:
         # Only remaining possibility is gray value
         if desc.startswith("g#"):
             # hex value 00..ff
-            gray = int(desc[2:], 16)
+            gray = _int_digits(desc[2:], 16)
             if gray < 0 or gray > 255:
                 return None
             gray = _GRAY_88_LOOKUP[gray]
         elif desc.startswith("g"):
             # decimal value 0..100
-            gray = int(desc[1:], 10)
+            gray = _int_digits(desc[1:], 10)
             if gray < 0 or gray > 100:
                 return None
             gray = _GRAY_88_LOOKUP_101[gray]
